@@ -2,6 +2,42 @@
 B = "core/BoundedSPSCQueue.h"
 U = "core/UnboundedSPSCQueue.h"
 CASES = [
+ dict(name="b-c15-datetime-memo-keyed-on-all-arguments", ids=["C15", "C14"], subs=[("sinks/FileSink.h", """    // convert to seconds
+    auto const time_now = static_cast<time_t>(timestamp_ns / 1000000000);
+    tm now_tm;
+""", """    struct LastFormatted
+    {
+      uint64_t timestamp_ns{0};
+      Timezone time_zone{Timezone::LocalTime};
+      std::string pattern;
+      std::string value;
+    };
+    static thread_local LastFormatted last_formatted;
+    if (!last_formatted.value.empty() && (last_formatted.timestamp_ns == timestamp_ns) &&
+        (last_formatted.time_zone == time_zone) && (last_formatted.pattern == append_format_pattern))
+    {
+      return last_formatted.value;
+    }
+
+    // convert to seconds
+    auto const time_now = static_cast<time_t>(timestamp_ns / 1000000000);
+    tm now_tm;
+"""), ("sinks/FileSink.h", """    std::strftime(buffer, buffer_size, append_format_pattern.data(), &now_tm);
+
+    return std::string{buffer};""", """    std::strftime(buffer, buffer_size, append_format_pattern.data(), &now_tm);
+    last_formatted.timestamp_ns = timestamp_ns;
+    last_formatted.time_zone = time_zone;
+    last_formatted.pattern = append_format_pattern;
+    last_formatted.value = buffer;
+
+    return std::string{buffer};""")]),
+ dict(name="b-c12-process-id-set-in-init", ids=["C12"], subs=[("backend/BackendWorker.h", "  BackendWorker() { _process_id = std::to_string(get_process_id()); }", "  BackendWorker() {}"),
+    ("backend/BackendWorker.h", "    _options = options;\n\n    // Cache this thread's id", "    _options = options;\n    _process_id = std::to_string(get_process_id());\n\n    // Cache this thread's id")]),
+ dict(name="b-c16-consolesink-takes-notifier", ids=["C16", "C12"], subs=[("sinks/ConsoleSink.h", """  explicit ConsoleSink(ConsoleSinkConfig const& config = ConsoleSinkConfig{})
+    : StreamSink{config.stream(), nullptr, config.override_pattern_formatter_options()}, _config(config)""", """  explicit ConsoleSink(ConsoleSinkConfig const& config = ConsoleSinkConfig{},
+                       FileEventNotifier file_event_notifier = FileEventNotifier{})
+    : StreamSink{config.stream(), nullptr, config.override_pattern_formatter_options(), std::move(file_event_notifier)}, _config(config)""")]),
+ dict(name="b-c13-timegm-auto-result", ids=["C13"], subs=[("core/TimeUtilities.h", "  time_t const ret_val = ::timegm(tm);", "  auto const ret_val = ::timegm(tm);")]),
  dict(name="b-c01-guard-rewritten", ids=["C01", "C09"], subs=[(B, """    if ((_capacity - static_cast<integer_type>(_writer_pos - _reader_pos_cache)) < n)
     {
       // not enough""", """    if (n > (_capacity - static_cast<integer_type>(_writer_pos - _reader_pos_cache)))
